@@ -95,6 +95,8 @@ def f():
     from time import time; import q as time, time
     return time
 ''',
+    'form-feeds-and-other-separators': 'import os as first_import\n\x0c\ndef after_form_feed(arg_ff): pass\n\x0c\n\x0c\nclass AfterTwo(object): pass\n'
+                                       's_ = "a\x0bb\x1cc\x85d\u2028e"\ndef after_string(arg_s): return s_\nimport sys as last_import\nafter_all = 1\n',
     'same-line-reads': '''ys = [1, 2]
 z = [y for y in ys]
 w = [(a, b) for a in ys for b in ys]
@@ -204,10 +206,10 @@ print(%(verdict)r)
 
 
 @harness(['C11'], 'supp.scope.SourceScope.all_names / supp.linter.lint / supp.assistant.location [positions of every binding on a corpus]',
-         bounded='6 programs holding every binding construct (imports of every form over one and several lines, every parameter kind, tuple / starred / '
+         bounded='7 programs holding every binding construct (imports of every form over one and several lines, every parameter kind, tuple / starred / '
                  'chained / annotated targets, for / with / except / comprehension / walrus / lambda / def / class / async def, PEP 695 headers, match '
                  'captures) in conventional and awkward layouts (continuation lines inside an indented block, tabs and runs of blanks before a name, '
-                 '`;`-joined statements, one-line compound statements, imports whose bound word occurs earlier in the statement); every binding of all_names, every W01 / W02, location() from every read (cursor after the first and after the last character), including reads with several alternative bindings on the line of the cursor')
+                 '`;`-joined statements, one-line compound statements, imports whose bound word occurs earlier in the statement, form feeds and other characters str.splitlines() breaks at); every binding of all_names, every W01 / W02, location() from every read (cursor after the first and after the last character), including reads with several alternative bindings on the line of the cursor')
 def binding_positions(run):
     """BOUNDED stand-in: the text at every reported position is the bound identifier; all_names, lint and location agree.  Not counted as proved."""
     import logging
